@@ -84,7 +84,7 @@ CHECKS = {
     },
     "C24": {
         "technique": "model-based testing: exhaustive op histories + owned schedules vs list-LRU reference model; thread stress",
-        "text": "Every op history up to length 4 (quick) / 5 (thorough) over 20 ops, capacities 1-4, both cache classes, is compared step by step with an independent list model, so within that bound the sequential clause is decided completely; longer random histories sample beyond it. 'While being listed' is decided deterministically by owned schedules (listing begun, other ops interleaved, listing drained); real threads add a one-sided stress.",
+        "text": "Every op history up to length 4 (quick) / 5 (thorough) over 20 ops (values include None), capacities 1-4, both cache classes, is compared step by step with an independent list model, so within that bound the sequential clause is decided completely; longer random histories sample beyond it. 'While being listed' is decided deterministically by owned schedules (listing begun, other ops interleaved, listing drained); real threads add a one-sided stress. The cache's lock is swapped for one that raises on re-entry by its holder, so a self-deadlock is reported instead of hanging.",
         "design_ref": "DESIGN.md §4 C24",
         "note": "Trusts the 60-line list model (vf/ref/lru.py). Real OS schedules are not owned: pre-emption inside a locked method is not explored.",
     },
@@ -103,7 +103,7 @@ CHECKS["C27"] = {
 
 CHECKS["C10"] = {
     "technique": "exhaustive constructive-reference testing: piece sequences x hyphen flags",
-    "text": "Sources are assembled from 141 piece variants (texts with every ASCII whitespace character, non-ASCII whitespace (NBSP, NEL, U+2003, U+2028, U+3000, U+001C) and markup-like fragments; output, echo, raw, comment, doc, inline comment, liquid and {# #} pieces with every left/right hyphen combination on outer and inner delimiters); the expected output is constructed piece by piece (text verbatim, raw body verbatim, comments nothing, a hyphen strips only the adjacent text). All sequences up to 3 pieces are enumerated in the thorough tier (2M sources), up to 2 plus a 1/60 slice of length 3 in quick, plus random longer sequences.",
+    "text": "Sources are assembled from 143 piece variants (texts with every ASCII whitespace character, non-ASCII whitespace (NBSP, NEL, U+2003, U+2028, U+3000, U+001C) and markup-like fragments; output, echo, raw, comment, doc, inline comment, liquid (also holding a comment line) and {# #} pieces with every left/right hyphen combination on outer and inner delimiters); the expected output is constructed piece by piece (text verbatim, raw body verbatim, comments nothing, a hyphen strips only the adjacent text). All sequences up to 3 pieces are enumerated in the thorough tier (2M sources), up to 2 plus a 1/60 slice of length 3 in quick, plus random longer sequences.",
     "design_ref": "DESIGN.md §4 C10",
     "note": "Default delimiters and the template_comments environment only (custom delimiters are C11). Hyphens on inner raw/comment/doc delimiters are expected to have no effect.",
 }
